@@ -1,6 +1,6 @@
-(* C14 — diagnostics track source positions.  Property theorems only. *)
-From Coq Require Import List NArith Bool String.
-From RV Require Import Loc LocProofs.
+(* C14 — layout trivia and source positions.  Property theorems only. *)
+From Coq Require Import List NArith Bool String Ascii.
+From RV Require Import Loc LocProofs Lexer LexerTrivia GenLexer.
 Import ListNotations.
 Local Open Scope N_scope.
 
@@ -33,6 +33,54 @@ Theorem C14_later_files_do_not_matter :
     cur <= loc -> loc < cur + total fs -> locate (fs ++ more) cur loc = locate fs cur loc.
 Proof. exact later_files_do_not_matter. Qed.
 
+(* ---- layout trivia at the lexer (partial).
+   Full statement of the property's first half, for the lexer alone: inserting whitespace, comments or line splices
+   between two tokens of a file leaves the sequence of tokens that are not whitespace unchanged, except directly after
+   `<` or `>`.  Proved below, for every table of keywords / symbols / suffixes: a single blank (space, tab, line feed)
+   directly after an identifier, keyword, reserved word, operator symbol or string literal.
+   Missing: numeric literals as the token in front (their recognisers look ahead up to four characters), comments and
+   line splices as the inserted trivia, tokens in front of the insertion point when the file does not start with the
+   token (that they do not look ahead that far is not proved), and everything after the lexer (directive lines,
+   macro invocations, the parser) - those layers are exercised by the metamorphic runs of the check. ---- *)
+
+(* the token is read the same, with the same length, whatever blank follows it *)
+Theorem C14_token_ignores_a_following_blank_partial :
+  forall keywords reserved_words symbols int_suffixes float_suffixes float_is_zero utf8_ok (a b : string) t w b',
+    tok_at keywords reserved_words symbols int_suffixes float_suffixes float_is_zero utf8_ok false (a ++ b) = LOk t (slen a) ->
+    solid t = true -> blank w ->
+    tok_at keywords reserved_words symbols int_suffixes float_suffixes float_is_zero utf8_ok false (a ++ String w b') = LOk t (slen a).
+Proof. exact solid_token_ignores_following_blank. Qed.
+
+(* from that token on, the file with the blank inserted lexes to the same tokens up to whitespace *)
+Theorem C14_blank_after_a_token_keeps_the_rest_partial :
+  forall keywords reserved_words symbols int_suffixes float_suffixes float_is_zero utf8_ok (a b : string) last t ts w,
+    tok_at keywords reserved_words symbols int_suffixes float_suffixes float_is_zero utf8_ok false (a ++ b) = LOk t (slen a) ->
+    solid t = true -> blank w ->
+    Lexes keywords reserved_words symbols int_suffixes float_suffixes float_is_zero utf8_ok (a ++ b) last (t :: ts) ->
+    exists ts', Lexes keywords reserved_words symbols int_suffixes float_suffixes float_is_zero utf8_ok (a ++ String w b) last (t :: ts') /\
+                strip ts' = strip ts.
+Proof. exact blank_after_solid_token. Qed.
+
+(* the same through TokenStream (`lex_file`), for a file that starts with the token *)
+Theorem C14_blank_after_the_first_token_partial :
+  forall keywords reserved_words symbols int_suffixes float_suffixes float_is_zero utf8_ok (a b : string) t w spans,
+    tok_at keywords reserved_words symbols int_suffixes float_suffixes float_is_zero utf8_ok false (a ++ b) = LOk t (slen a) ->
+    solid t = true -> blank w ->
+    lex_file keywords reserved_words symbols int_suffixes float_suffixes float_is_zero utf8_ok (a ++ b) = SOk spans ->
+    exists spans', lex_file keywords reserved_words symbols int_suffixes float_suffixes float_is_zero utf8_ok (a ++ String w b) = SOk spans' /\
+                   strip (toks spans') = strip (toks spans).
+Proof. exact blank_after_first_token. Qed.
+
+(* non-vacuity with the tables of the real lexer: `x+=1` and `x +=1`; the hypothesis fails where it must: `+` `=` *)
+Example C14_trivia_example :
+  let lex := lex_file keywords reserved_words symbols int_suffixes float_suffixes (fun _ => false) (fun _ => true) in
+  let at_ := tok_at keywords reserved_words symbols int_suffixes float_suffixes (fun _ => false) (fun _ => true) false in
+  at_ ("x" ++ "+=1")%string = LOk (TId "x") 1%nat /\ solid (TId "x") = true /\
+  option_map strip (match lex "x+=1"%string with SOk l => Some (toks l) | _ => None end) =
+  option_map strip (match lex "x +=1"%string with SOk l => Some (toks l) | _ => None end) /\
+  at_ ("+" ++ "=1")%string <> LOk (TSym "Plus") 1%nat.
+Proof. vm_compute. repeat split. discriminate. Qed.
+
 (* ---- non-vacuity ---- *)
 Example C14_example :
   let a := [105; 110; 116; 10] in           (* "int\n" *)
@@ -50,3 +98,6 @@ Print Assumptions C14_inserting_lines_shifts_lines.
 Print Assumptions C14_location_names_its_file.
 Print Assumptions C14_file_ranges_disjoint.
 Print Assumptions C14_later_files_do_not_matter.
+Print Assumptions C14_token_ignores_a_following_blank_partial.
+Print Assumptions C14_blank_after_a_token_keeps_the_rest_partial.
+Print Assumptions C14_blank_after_the_first_token_partial.
